@@ -1984,3 +1984,151 @@ Proof.
     cbn [strip_c c_direct]. rewrite dkeys_dmapv, <- KP1.
     destruct (mem_str k (dkeys P1)); reflexivity.
 Qed.
+
+(** ** the hypotheses of P1 hold for the tracker's instance dictionary *)
+
+Section TrackerFacts.
+  Variables (tau : str) (m : tmode) (Gall : graph).
+
+  (** unique keys; every instance is the subject of a [tau]-triple of the graph *)
+  Definition insts_ok (d : insts) : Prop :=
+    NoDup (dkeys d) /\
+    forall i, In i (dkeys d) -> exists t, In t Gall /\ nid (ts t) = i /\ tp t = tau.
+
+  Lemma insts_ok_nil : insts_ok [].
+  Proof. split; [constructor | intros i []]. Qed.
+
+  Lemma relevant_tau t : relevant tau m t = true -> tp t = tau.
+  Proof. unfold relevant. intros H. apply andb_true_iff in H. destruct H as [H _]. apply str_eqb_eq. assumption. Qed.
+
+  Lemma insts_ok_add d t o :
+    insts_ok d -> In t Gall -> relevant tau m t = true ->
+    insts_ok (dupd d (nid (ts t)) [] (fun cs => cs ++ [nid o])).
+  Proof.
+    intros [ND H] Ht Hr. split; [apply NoDup_dkeys_dupd; assumption|].
+    intros i Hi. rewrite dkeys_dupd_add_new in Hi. apply In_add_new in Hi. destruct Hi as [Hi|Hi].
+    - apply H. assumption.
+    - subst i. exists t. split; [assumption|]. split; [reflexivity | apply relevant_tau; assumption].
+  Qed.
+
+  Lemma track_plain_ok g : forall d I,
+    (forall t, In t g -> In t Gall) -> insts_ok d ->
+    track_plain tau m g d = inl I -> insts_ok I.
+  Proof.
+    induction g as [|t g IH]; intros d I Hg Hd; cbn [track_plain].
+    - intros E. injection E as <-. assumption.
+    - assert (Hg' : forall t', In t' g -> In t' Gall) by (intros t' Ht'; apply Hg; right; assumption).
+      destruct (relevant tau m t) eqn:Hr; [|apply IH; assumption].
+      unfold annotate. destruct (to t) as [o|c dt]; [|discriminate].
+      apply IH; [assumption|]. apply insts_ok_add; [assumption | apply Hg; left; reflexivity | assumption].
+  Qed.
+
+  Lemma track_cap_ok cap nt g : forall d st I,
+    (forall t, In t g -> In t Gall) -> insts_ok d ->
+    track_cap tau m cap nt g d st = inl I -> insts_ok I.
+  Proof.
+    induction g as [|t g IH]; intros d st I Hg Hd; cbn [track_cap].
+    - intros E. injection E as <-. assumption.
+    - assert (Hg' : forall t', In t' g -> In t' Gall) by (intros t' Ht'; apply Hg; right; assumption).
+      destruct (cap_allows tau cap st t) as [[|]|]; [| apply IH; assumption | discriminate].
+      destruct (relevant tau m t) eqn:Hr; [|apply IH; assumption].
+      destruct (to t) as [o|c dt]; [|discriminate].
+      assert (Hd' : insts_ok (dupd d (nid (ts t)) [] (fun cs => cs ++ [nid o]))).
+      { apply insts_ok_add; [assumption | apply Hg; left; reflexivity | assumption]. }
+      destruct nt as [n|].
+      + destruct (Nat.eqb _ n).
+        * intros E. injection E as <-. assumption.
+        * apply IH; assumption.
+      + apply IH; assumption.
+  Qed.
+End TrackerFacts.
+
+(** the instance dictionary of the tracker satisfies the hypothesis of (b),
+    and every instance is the subject of a [tau]-triple *)
+Theorem track_insts_ok tau m cap G I :
+  track tau m cap G = inl I ->
+  NoDup (dkeys I) /\
+  forall i, In i (dkeys I) -> exists t, In t G /\ nid (ts t) = i /\ tp t = tau.
+Proof.
+  unfold track. destruct (cap <=? 0)%Z.
+  - apply (track_plain_ok tau m G G); [auto | apply insts_ok_nil].
+  - apply (track_cap_ok tau m G); [auto | apply insts_ok_nil].
+Qed.
+
+(** ** (c) with cleaning, for instance dictionaries whose listed instances are
+    subjects of the graph (in particular the tracker's): no side condition *)
+
+Lemma cnt_pos_of_In dir tau I G i p k t :
+  In t G -> 0 < count_in k (contrib dir tau I t i p) -> 0 < cnt dir tau I G i p k.
+Proof.
+  intros Ht H. unfold cnt. apply sumN_pos_ex. exists (count_in k (contrib dir tau I t i p)).
+  split; [|assumption]. apply in_map_iff. exists t. split; [reflexivity | assumption].
+Qed.
+
+Lemma keys_direct_head tau I t :
+  ~ (tp t = tau /\ is_node (to t) = false) -> exists k ks, keys_direct tau I t = k :: ks.
+Proof.
+  intros NB. unfold keys_direct. destruct (to t) as [o|c dt].
+  - destruct (str_eqb (tp t) tau); eexists; eexists; reflexivity.
+  - destruct (str_eqb (tp t) tau) eqn:E.
+    + exfalso. apply NB. split; [apply str_eqb_eq; assumption | reflexivity].
+    + eexists; eexists; reflexivity.
+Qed.
+
+Theorem profile_inverse_flag_subjects cfg I G :
+  NoDup (dkeys I) ->
+  (forall i cs, In (i, cs) I -> cs <> [] -> exists t, In t G /\ nid (ts t) = i) ->
+  profile (set_inverse cfg false) I G =
+  match profile (set_inverse cfg true) I G with
+  | inl (P, C, ID) => inl (dmapv strip_c P, C, dmapv strip_i ID)
+  | inr e => inr e
+  end.
+Proof.
+  intros NDI HS. apply profile_inverse_flag. intros _ ID P1 C0 HA HR.
+  apply shapes_to_remove_strip_eq. intros c e Hce _ ED.
+  set (cfg' := set_inverse cfg true) in *.
+  change (p_tau cfg) with (p_tau cfg') in HA. change true with (p_inverse cfg') in HA.
+  destruct (profile_counts_char cfg' I G ID P1 C0 NDI HA HR) as [_ [_ [NDP _]]].
+  pose proof (In_dget_NoDup P1 c e NDP Hce) as He.
+  destruct (profile_entries_char cfg' I G ID P1 C0 NDI HA HR c e He) as [_ [_ [FD FI]]].
+  destruct (FI eq_refl) as [_ FI'].
+  destruct (c_inverse e) as [|x r] eqn:EI; [reflexivity|]. exfalso.
+  assert (NE : x :: r <> []) by discriminate.
+  apply FI' in NE. destruct NE as [p [k [card Hocc]]].
+  assert (Hex : exists card, 0 < occ Inverse (p_tau cfg') I G c p k card) by (exists card; assumption).
+  apply occ_pos_iff in Hex. destruct Hex as [i [cs [Hi [Hc _]]]].
+  assert (Hcs : cs <> []) by (intros ->; destruct Hc).
+  destruct (HS i cs Hi Hcs) as [t [Ht Hsub]].
+  (* t is not a bad triple, because the pass succeeded *)
+  assert (NB : ~ bad_triple (p_tau cfg') I t).
+  { apply (proj1 (annotate_all_ok_iff (p_tau cfg') (p_inverse cfg') I G)); [exists ID; assumption | assumption]. }
+  assert (Tr : dmem I (nid (ts t)) = true).
+  { rewrite Hsub. apply dmem_In. unfold dkeys. apply in_map_iff. exists (i, cs). auto. }
+  destruct (keys_direct_head (p_tau cfg') I t) as [k0 [ks Hk]].
+  { intros [H1 H2]. apply NB. split; [assumption | split; assumption]. }
+  assert (Hcnt : 0 < cnt Direct (p_tau cfg') I G i (tp t) k0).
+  { apply (cnt_pos_of_In Direct _ I G i (tp t) k0 t Ht).
+    cbn [contrib]. rewrite Hsub, !str_eqb_refl. cbn [andb]. rewrite Hk. cbn [count_in].
+    rewrite str_eqb_refl. lia. }
+  assert (Hex : exists card, 0 < occ Direct (p_tau cfg') I G c (tp t) k0 card).
+  { apply occ_pos_iff. exists i, cs. split; [assumption|]. split; assumption. }
+  destruct Hex as [card' Hocc'].
+  assert (ND : c_direct e <> []) by (apply FD; exists (tp t), k0, card'; assumption).
+  contradiction.
+Qed.
+
+(** in particular for the tracker's instance dictionary *)
+Corollary profile_inverse_flag_tracked cfg m cap G I :
+  track (p_tau cfg) m cap G = inl I ->
+  profile (set_inverse cfg false) I G =
+  match profile (set_inverse cfg true) I G with
+  | inl (P, C, ID) => inl (dmapv strip_c P, C, dmapv strip_i ID)
+  | inr e => inr e
+  end.
+Proof.
+  intros HT. destruct (track_insts_ok _ _ _ _ _ HT) as [ND HS].
+  apply profile_inverse_flag_subjects; [assumption|].
+  intros i cs Hi _. destruct (HS i) as [t [Ht [Hs _]]].
+  - unfold dkeys. apply in_map_iff. exists (i, cs). auto.
+  - exists t. auto.
+Qed.
